@@ -187,6 +187,13 @@ func checkC02(cfg *core.Config) int {
 func checkC15(cfg *core.Config) int {
 	rep := core.NewReport(cfg)
 	progs := typeProgs(cfg.Seed, cfg.Pick(32, 400))
+	// pointer typed fields are within the domain of the two Go generators run here
+	for i := 0; i < cfg.Pick(6, 60); i++ {
+		r := core.Rand(cfg.Seed, "typeprog-c15-pointers", i)
+		opts := synth.RandomTypeOpts(r)
+		opts.PtrFields = true
+		progs = append(progs, synth.NewTypeProg(cfg.Seed, 7000+i, r, opts))
+	}
 	progs = append(progs, pinnedPrograms("C15")...)
 	pr := prepareRunner(cfg, rep, progs, []string{"gounions", "randdata"}, nil, true)
 	defer pr.pl.Close()
